@@ -404,7 +404,10 @@ identical result across segmentations and reader styles (all bodies), never Err.
         if let Some(v) = &ct_value {
             headers.push(("Content-Type".into(), v.clone().into_bytes()));
         }
-        let built = build_response(200, &headers, &case.framing, 0, &body);
+        // the status of the response plays no part in how its text is decoded (the 3xx ones here are not followed: no Location)
+        let status = [200u16, 200, 404, 300, 305, 500, 201, 399][(case.media as usize * 3 + case.request_ct as usize + case.small_first.0 as usize) % 8];
+        ctx.label_if(status / 100 == 3, "text-of-a-3xx-response");
+        let built = build_response(status, &headers, &case.framing, 0, &body);
         let mut results: Vec<String> = vec![];
         let mut multi_seg = false;
         for (si, sg) in case.segs.iter().enumerate() {
